@@ -35,6 +35,8 @@ def _colour_box(cr):
     cr.bounded_check(run_contract_enum, "populate-wire-connections-box", c12.populate, pargs,
                      f"{len(pargs)} cases: edge sets of up to 3 edges over 3 entities x 2 signals, three colour maps, spanning tree on / off / failing: every edge is routed "
                      "exactly once under its own source, signal and planned colour; two-way pairs directly (contract evaluated on the real method, the two routers recorded)")
+    from checks.boxes import data_structure_boxes
+    data_structure_boxes(cr, ("graph",))
     bargs = c12.bidi_arg_sets()
     cr.bounded_check(run_contract_enum, "bidirectional-pairs-box", c12.bidi, bargs,
                      f"{len(bargs)} edge sets of up to 3 edges over 3 entities (self-loops and source-less edges included): "
